@@ -588,7 +588,9 @@ where
 			)));
 		}
 		let part_change = change / num_change_outputs as u64;
-		let remainder_change = change % part_change;
+		// what the equal parts leave over (not change % part_change, which loses value
+		// when the change is smaller than the square of the number of outputs)
+		let remainder_change = change - part_change * num_change_outputs as u64;
 
 		for x in 0..num_change_outputs {
 			// n-1 equal change_outputs and a final one accounting for any remainder
